@@ -401,6 +401,15 @@ func rulePanics(rule string) func(*Ctx) {
 					if !ok {
 						continue
 					}
+					if !p.Pos().IsValid() {
+						// the two checks go/ssa synthesises around a range-over-func loop (the iterator misbehaving),
+						// not a panic written in the source
+						if k, isK := p.X.(*ssa.MakeInterface); isK {
+							if ks, isS := k.X.(*ssa.Const); isS && ks.Value != nil && (strings.Contains(ks.Value.String(), "iterator call did not preserve panic") || strings.Contains(ks.Value.String(), "yield function called after range loop exit")) {
+								continue
+							}
+						}
+					}
 					n++
 					what := renderPanic(p)
 					k[what]++
